@@ -473,9 +473,22 @@ impl<'a> Emitter<'a> {
                 continue;
             }
             if let Some(rest) = t.strip_prefix("__vx_loop!(") {
-                let args: Vec<&str> = rest.trim_end_matches(");").split(',').map(|x| x.trim()).collect();
+                let inner = rest.trim_end_matches(");");
+                // __vx_loop!(N, FLAG, "x == self.a.b", ..): the string arguments may contain commas
+                let mut args: Vec<String> = vec![];
+                {
+                    let mut cur = String::new();
+                    let mut in_str = false;
+                    for c in inner.chars() {
+                        if c == '"' { in_str = !in_str; continue; }
+                        if c == ',' && !in_str { args.push(cur.trim().to_string()); cur.clear(); continue; }
+                        cur.push(c);
+                    }
+                    if !cur.trim().is_empty() { args.push(cur.trim().to_string()); }
+                }
                 let n: usize = args[0].parse().unwrap();
-                let by_ordinal = args.get(1).map(|x| *x == "1").unwrap_or(false);
+                let by_ordinal = args.get(1).map(|x| x == "1").unwrap_or(false);
+                let hoisted: Vec<String> = args.iter().skip(2).cloned().collect();
                 let f = cur_fn.expect("loop marker outside fn");
                 // header = previous line ending with `{`
                 let mut k = out.len();
@@ -506,6 +519,14 @@ impl<'a> Emitter<'a> {
                 if let Some(ls) = f.spec.loops.get(&n) {
                     self.render_clauses("invariant_except_break", &ls.invariant_except_break, &format!("{}    ", hindent), &mut out, &f.poolstr);
                     self.render_clauses("invariant", &ls.invariant, &format!("{}    ", hindent), &mut out, &f.poolstr);
+                    // a function proved with loop isolation forgets what it knew about immutable locals read from `self` before the
+                    // loop; restated as invariants (marked `auto`: `check` never takes their failure, or what follows from it, for a
+                    // violation)
+                    if f.spec.attrs.iter().any(|a| a.contains("loop_isolation(true)")) && !ls.invariant.iter().filter(|c| variant_ok(&c.variants, &self.variant)).collect::<Vec<_>>().is_empty() {
+                        for h in hoisted.iter() {
+                            out.push(format!("{}        {}, // [auto hoisted-local]", hindent, h));
+                        }
+                    }
                     self.render_clauses("ensures", &ls.ensures, &format!("{}    ", hindent), &mut out, &f.poolstr);
                     if let Some(d) = &ls.decreases {
                         out.push(format!("{}    decreases {},", hindent, d));
